@@ -15,6 +15,7 @@ pub fn generate2(prop: &str, tier: &str, rng: &mut Rng, w: &mut dyn Write) {
         "C12" => crate::gen3::gen_c12(tier, rng, w),
         "C17" => crate::gen3::gen_c17(tier, rng, w),
         "C15" => crate::gen3::gen_c15(tier, rng, w),
+        "C16" => crate::gen3::gen_c16(tier, rng, w),
         _ => {
             eprintln!("harness: no generator for {}", prop);
             std::process::exit(2);
